@@ -382,6 +382,13 @@ def check_cli(ctx, scen, d, n_relabel, replay_relabelled=None):
         fails.append(key)
         ctx.fail(what, c or case, key=key)
 
+    if "crash" in res and "No chromosome is contained in all VCFs" in str(res["crash"]):
+        # a legitimate refusal when the files share no chromosome with records (e.g. one generated file is empty)
+        files_ = case.get("files") or []
+        with_records = [{c for c, recs in f.items() if recs} for f in files_]
+        if files_ and not set.intersection(*with_records):
+            ctx.observe("compare refused input files without a common chromosome (expected)")
+            return
     if "crash" in res:
         if res.get("multiway_assert"):
             fail("whatshap compare dies in compare_multiway: `assert {c for c in s} == set('0')` — no pair of variants on which all data sets agree", K_C)
